@@ -370,6 +370,12 @@ class Engine:
                     self.replay_asan(obl, res)
                 else:
                     self.replay(obl, res)
+                    has_builtin = any(not d.get("description", "").startswith(("PROP:", "NORETURN")) for d in res.failed_props)
+                    if (res.replay or {}).get("verdict") == "not-reproduced" and has_builtin:
+                        # the functional difference depends on memory the code must not read: confirm the memory error itself
+                        first = res.replay
+                        self.replay_asan(obl, res)
+                        res.replay["functional_replay"] = first.get("verdict")
             except Exception as e:  # noqa
                 res.replay = {"verdict": "replay-error", "detail": str(e)[-500:]}
         return res
@@ -479,7 +485,7 @@ class Engine:
             if r.returncode != 0:
                 outs[mode] = {"rc": -1, "out": "compile failed: " + r.stderr[-400:]}
                 continue
-            r = subprocess.run([CLANGXX, cobj] + objs + ["-o", exe, "-lpthread"], capture_output=True, text=True)
+            r = subprocess.run([CLANGXX, "-no-pie", "-Wl,--unresolved-symbols=ignore-all", cobj] + objs + ["-o", exe, "-lpthread"], capture_output=True, text=True)
             if r.returncode != 0:
                 outs[mode] = {"rc": -1, "out": "link failed: " + r.stderr[-400:]}
                 continue
